@@ -15,6 +15,13 @@ package props
 //        every record read (and kept) before any is looked at
 //   gfff <hdr> {<10 gff tokens>}*                        a file of features: one Writer, one Reader, likewise
 //
+//   bedx <N> <w> <12 bed tokens>                         one BedN record through a Writer of width w over an io.Writer that
+//        accepts exactly k bytes and then fails (short write + error), once for every k = 0..L (L = length of the fault-free text)
+//   gffx <hdr> <10 gff tokens>                           one feature likewise (the header, if any, goes to the same failing writer)
+//
+// Observation (bedx/gffx):  x <L> <hex of the fault-free text> {<n>/<emitted by that Write>/<e: 1 error, 0 none>/<p>}   one token per k;
+// p = 1 when all the bytes emitted are the first bytes of the fault-free text.
+//
 // Observation (bedf/gfff):  <n,...> <emitted,...> <hex of all text> [<ff:..,ff:..>] | <calls> [| <oracles>]
 //
 // Observation (bed/gff/reg/iseq):  <n reported> <n emitted by that call> <hex of all text> | <calls> | <oracles>
@@ -586,6 +593,43 @@ func c02Exec(input string) string {
 		}
 		return fmt.Sprintf("%s %s %s %s | %s | %s", hx.Ints(ns), hx.Ints(ds), hx.Hex(buf.Bytes()), ff,
 			fioReadGff(buf.Bytes()), fioOracles(buf.Bytes()))
+	case "bedx", "gffx":
+		var mk func(w io.Writer) (func() (int, error), error)
+		if f[0] == "bedx" {
+			n, w := hx.Atoi(f[1]), hx.Atoi(f[2])
+			b := fioParseBedIn(f[3:])
+			mk = func(sink io.Writer) (func() (int, error), error) {
+				bw, err := bed.NewWriter(sink, w)
+				if err != nil {
+					return nil, err
+				}
+				return func() (int, error) { return bw.Write(b.record(n)) }, nil
+			}
+		} else {
+			hdr := f[1] == "1"
+			g := fioParseGffIn(f[2:])
+			mk = func(sink io.Writer) (func() (int, error), error) {
+				gw := gff.NewWriter(sink, 60, hdr)
+				return func() (int, error) { return gw.Write(g.record()) }, nil
+			}
+		}
+		var full bytes.Buffer
+		wr, err := mk(&full)
+		if err != nil {
+			return "newwriter:" + fioErr(err)
+		}
+		if cnt, err := wr(); err != nil {
+			return fioWErr(err) + " " + strconv.Itoa(cnt) + " " + hx.Hex(full.Bytes())
+		}
+		out := []string{"x", strconv.Itoa(full.Len()), hx.Hex(full.Bytes())}
+		for k := 0; k <= full.Len(); k++ {
+			lw := &sioLimitWriter{limit: k}
+			wr, _ := mk(lw)
+			before := lw.buf.Len()
+			cnt, err := wr()
+			out = append(out, fmt.Sprintf("%d/%d/%s/%s", cnt, lw.buf.Len()-before, hx.B(err != nil), hx.B(bytes.HasPrefix(full.Bytes(), lw.buf.Bytes()))))
+		}
+		return strings.Join(out, " ")
 	case "fl":
 		bits, err := strconv.ParseUint(f[1], 16, 64)
 		if err != nil {
@@ -878,6 +922,28 @@ func c02Gen(g *hx.Gen) {
 	for k := 0; k < n && !g.Done(); k++ {
 		if g.Chance(0.12) {
 			c02FileGen(g)
+			continue
+		}
+		if g.Chance(0.04) {
+			// one record through a writer that fails after k bytes, for every k
+			if g.Chance(0.5) {
+				b := fioBed(g)
+				if len(b.name) > 100 {
+					b.name = b.name[:20]
+				}
+				N := fioWidths[g.Intn(len(fioWidths))]
+				w := N
+				if g.Chance(0.3) {
+					w = fioWidths[g.Intn(len(fioWidths))]
+				}
+				g.Casef("bedx %d %d %s", N, w, b.tokens())
+			} else {
+				f := fioGff(g)
+				if len(f.attrs) > 5 {
+					f.attrs = f.attrs[:5]
+				}
+				g.Casef("gffx %s %s", hx.B(g.Chance(0.5)), f.tokens())
+			}
 			continue
 		}
 		switch g.Intn(10) {
